@@ -17,7 +17,8 @@ SHRINK_LISTS = [('tokens',), ('faults',)]
 EXPECTED_PROBES = ['ended_by_timer_only', 'reached_ready', 'reached_rejected', 'reached_protocol_error',
                    'reached_unresponsive', 'reached_closed', 'connect_fail',
                    'nongraceful', 'graceful', 'non_ascii_request',
-                   'read_filled_buffer_exactly']
+                   'read_filled_buffer_exactly', 'via_proxy_ok',
+                   'via_proxy_refusing']
 
 TOKENS = ['good101', 'bad_accept', 'http200', 'garbage', 'bighdr', 'text',
           'frag', 'cont', 'ping', 'pong', 'close', 'invalid', 'badutf8',
@@ -40,6 +41,9 @@ FAULTS = [None,
 NT, NA, NF = len(TOKENS), len(APPS), len(FAULTS)
 # what the request is made of (characters outside ASCII / Latin-1)
 REQS = [None, None, None, 'path', 'query', 'agent', 'proto', 'all']
+# through an HTTP proxy: how the proxy answers the CONNECT
+PROXIES = [None] * 20 + ['ok', 'ok_split', 'eof', 'eof_mid', 'status407',
+                        'garbage', 'silent']
 
 
 def _nseq(L):
@@ -97,7 +101,7 @@ def make_case(family, i, rng, tier):
                 'pongs': rng.choice([0, 0, 1, 3]),
                 'poll': rng.choice([5, 1, 0.25]),
                 'ping_rate': rng.choice([30, 0, 4]),
-                'req': rng.choice(REQS)}
+                'req': rng.choice(REQS), 'proxy': rng.choice(PROXIES)}
         if rng.random() < 0.5:
             case['ping_timeout'] = rng.choice([7, 20])
             case['close_timeout'] = rng.choice([30, None, 0, 3])
@@ -132,7 +136,7 @@ def make_case(family, i, rng, tier):
             'ping_rate': rng.choice([30, 0, 4]),
             'poll': rng.choice([5, 1, 0.25]),
             'cuts': rng.random() < 0.5, 'cut_seed': rng.getrandbits(32),
-            'req': rng.choice(REQS)}
+            'req': rng.choice(REQS), 'proxy': rng.choice(PROXIES)}
 
 
 def _compile_tokens(tokens):
@@ -234,6 +238,37 @@ def build(case):
         else:
             faults.append(f)
     conn['faults'] = faults
+    px = case.get('proxy')
+    if px:
+        ok = b'HTTP/1.1 200 Connection established\r\nVia: p\r\n\r\n'
+        psteps = [{'op': 'await_request', 'nth': 1}]
+        if px == 'ok':
+            psteps.append({'op': 'reply', 'tmpl': ok.hex(), 'cuts': [],
+                           'gaps': [0]})
+        elif px == 'ok_split':
+            psteps.append({'op': 'reply', 'tmpl': ok.hex(),
+                           'cuts': [5, 20, len(ok) - 2], 'gaps': [1001]})
+        elif px == 'eof':
+            psteps.append(S.eof(after=1001))
+        elif px == 'eof_mid':
+            psteps += [{'op': 'reply', 'tmpl': ok[:25].hex(), 'cuts': [],
+                        'gaps': [0]}, S.eof(after=1001)]
+        elif px == 'status407':
+            psteps += [{'op': 'reply', 'tmpl': (
+                b'HTTP/1.1 407 Proxy Authentication Required\r\n'
+                b'Proxy-Authenticate: Basic\r\n\r\n').hex(), 'cuts': [],
+                'gaps': [0]}, S.eof(after=2000001)]
+        elif px == 'garbage':
+            psteps += [{'op': 'reply', 'tmpl': (b'\x00\x01 not http\r\n' * 3
+                                                ).hex(), 'cuts': [],
+                        'gaps': [0]}, S.eof(after=1001)]
+        elif px == 'silent':
+            psteps.append({'op': 'silence'})
+        conn['proxy'] = {'steps': psteps,
+                         'then_server': px in ('ok', 'ok_split')}
+        for st in conn['server']:
+            if st.get('op') == 'await_request':
+                st['nth'] = 2
     if case.get('cuts'):
         conn['short_reads'] = {'*': 1 + case.get('cut_seed', 0) % 7}
     if case.get('pongs'):
@@ -249,6 +284,8 @@ def build(case):
         ws['agent'] = u'Agent/\u03a9 \u20ac'
     if req in ('proto', 'all'):
         ws['protocols'] = [u'chat', u'\u0447\u0430\u0442']
+    if case.get('proxy'):
+        ws['proxies'] = {'http': 'http://proxy.test:3128'}
     return {
         'url': url,
         'ws': ws,
@@ -289,6 +326,9 @@ def execute(case):
             res.stats['probe:graceful' if e.snap[1] else 'probe:nongraceful'] += 1
     if case.get('req'):
         res.stats['probe:non_ascii_request'] += 1
+    if case.get('proxy'):
+        res.stats['probe:via_proxy_' + (
+            'ok' if case['proxy'].startswith('ok') else 'refusing')] += 1
     if any(t.startswith('fullread') for t in case['tokens']) and \
             'binary' in names:
         res.stats['probe:read_filled_buffer_exactly'] += 1
